@@ -172,23 +172,6 @@ def flags? (s : String) : Option (Opts × Nat) :=
       some (⟨a = '1', b = '1'⟩, c.toNat - '0'.toNat) else none
   | _ => none
 
-/-- `wraps` applied again on top of `w` (plain), `n` more times; newest first -/
-def stackUp (o : Opts) : Nat → List Func → Except Err (List Func)
-  | 0, ws => .ok ws
-  | _, [] => .ok []
-  | n + 1, w :: ws =>
-    match updateWrapper w [] [] o with
-    | .ok w' => stackUp o n (w' :: w :: ws)
-    | .error e => .error e
-
-/-- a call travelling down a stack of wrappers (each user wrapper calls the next function with
-    what it received); result = what the innermost user wrapper receives -/
-def travel : List Func → Call → Option Call
-  | [], c => some c
-  | w :: ws, c => match callWrapper w c with
-    | some c' => travel ws c'
-    | none => none
-
 def outcomeStack (f : Func) (ws : List Func) (plain : Bool) (c : Call) : String :=
   match ws with
   | [] => "?"
